@@ -53,6 +53,11 @@ def execute(run, cov, log):
     hh2sim.execute(run, cov, log)
 
 
+def preload():
+    from sim import seams
+    seams.preload()
+
+
 def shrink(run):
     return hh2sim.shrink_run(run)
 
